@@ -63,13 +63,21 @@ class Node:
             stack.extend(reversed(n.children))
 
     def strip(self, casts=True):
-        """Skip parentheses, implicit casts, _Generic wrappers and (optionally) C casts."""
+        """Skip parentheses, implicit casts, _Generic wrappers and (optionally) C casts; `*&x` and `&*x` are x."""
         n = self
         while True:
             if n.k in TRANSPARENT and n.children:
                 n = n.children[0]
             elif casts and n.k in CASTS and n.children:
                 n = n.children[0]
+            elif n.k == "UnaryOperator" and n.j.get("op") in ("*", "&") and n.children:
+                inner = n.children[0]
+                while (inner.k in TRANSPARENT or (casts and inner.k in CASTS)) and inner.children:
+                    inner = inner.children[0]
+                if inner.k == "UnaryOperator" and inner.j.get("op") == ("&" if n.j["op"] == "*" else "*") and inner.children:
+                    n = inner.children[0]
+                else:
+                    return n
             else:
                 return n
 
@@ -145,6 +153,20 @@ class Node:
         return "<%s#%d %s @%s>" % (self.k, self.id, render(self)[:60], self.j.get("line"))
 
 
+_RENDER_STACK = []
+
+
+def _resolve_alias(node):
+    """the expression a local alias stands for (see Function.alias_map), else the node itself"""
+    s = node.strip()
+    if s.k == "DeclRefExpr" and s.j.get("dk") == "local" and s.fn is not None and not getattr(s.fn, "_no_alias", False):
+        am = s.fn.alias_map
+        nm = s.j.get("name")
+        if nm in am and am[nm] is not None and nm not in _RENDER_STACK:
+            return am[nm]
+    return node
+
+
 def render(n, casts=False):
     """Canonical C-like text of an expression: parentheses and implicit casts dropped,
     (*p).f written p->f, NULL written NULL.  Two expressions with equal rendering are
@@ -165,7 +187,16 @@ def render(n, casts=False):
         inner = render(n.children[0], casts)
         return "(%s)%s" % (j.get("t"), inner) if casts else inner
     if k == "DeclRefExpr":
-        return j.get("name", "?")
+        nm = j.get("name", "?")
+        if j.get("dk") == "local" and n.fn is not None and not getattr(n.fn, "_no_alias", False):
+            am = n.fn.alias_map
+            if nm in am and am[nm] is not None and nm not in _RENDER_STACK:
+                _RENDER_STACK.append(nm)
+                try:
+                    return _paren(am[nm], casts)
+                finally:
+                    _RENDER_STACK.pop()
+        return nm
     if k == "IntegerLiteral":
         return str(j.get("val"))
     if k == "CharacterLiteral":
@@ -179,15 +210,35 @@ def render(n, casts=False):
         s = j.get("str", "")
         return '"%s"' % s.replace("\\", "\\\\").replace("\n", "\\n").replace("\t", "\\t").replace('"', '\\"')
     if k == "MemberExpr":
-        base = n.children[0]
+        base = _resolve_alias(n.children[0])
         b = base.strip()
         if not j.get("arrow") and b.k == "UnaryOperator" and b.j.get("op") == "*":
             return "%s->%s" % (_paren(b.children[0], casts), j.get("member"))
+        if j.get("arrow") and b.k == "UnaryOperator" and b.j.get("op") == "&":
+            return "%s.%s" % (_paren(b.children[0], casts), j.get("member"))
+        if j.get("arrow") and b.k == "UnaryOperator" and b.j.get("op") == "*":
+            return "(%s)->%s" % (render(b, casts), j.get("member"))
         return "%s%s%s" % (_paren(base, casts), "->" if j.get("arrow") else ".", j.get("member"))
     if k == "ArraySubscriptExpr":
-        return "%s[%s]" % (_paren(n.children[0], casts), render(n.children[1], casts))
+        b0 = _resolve_alias(n.children[0])
+        bs = b0.strip()
+        if bs.k == "UnaryOperator" and bs.j.get("op") in ("*", "&"):
+            return "(%s)[%s]" % (render(bs, casts), render(n.children[1], casts))
+        return "%s[%s]" % (_paren(b0, casts), render(n.children[1], casts))
     if k == "UnaryOperator":
         op = j.get("op")
+        if op == "*" and n.children:
+            tgt = _resolve_alias(n.children[0]).strip()
+            if tgt.k == "UnaryOperator" and tgt.j.get("op") == "&" and tgt.children:
+                return render(tgt.children[0], casts)
+        if op in ("*", "&") and n.children:
+            inner = n.children[0].strip()
+            if inner is not n.children[0].strip(casts=True) or True:
+                raw = n.children[0]
+                while raw.k in TRANSPARENT and raw.children:
+                    raw = raw.children[0]
+                if raw.k == "UnaryOperator" and raw.j.get("op") == ("&" if op == "*" else "*") and raw.children:
+                    return render(raw.children[0], casts)
         if j.get("postfix"):
             return "%s%s" % (_paren(n.children[0], casts), op)
         return "%s%s" % (op, _paren(n.children[0], casts))
@@ -252,6 +303,8 @@ class Function:
                     c.parent = n
         self.body = self.nodes[j["body"]] if j.get("body", -1) >= 0 else None
         self._cfg = None
+        self.inlined = []
+        self.is_inlined_helper = False
 
     @property
     def file_rel(self):
@@ -271,6 +324,129 @@ class Function:
             from .cfg import CFG
             self._cfg = CFG(self)
         return self._cfg
+
+    @property
+    def alias_map(self):
+        """{local name: expression node} for locals that are mere names for another access path:
+        exactly one definition (in the declaration or a single assignment), the right-hand side free of calls and
+        side effects, a pointer/record-pointer type, the variable never re-assigned or incremented and its address never
+        taken, and nothing the right-hand side mentions is stored to afterwards.  render() expands such names, so that
+        `struct file_entry *last = &ef->file_entry[ef->length-1]; last->value = x;` reads `ef->file_entry[ef->length - 1].value = x`."""
+        if getattr(self, "_alias_map", None) is not None:
+            return self._alias_map
+        self._alias_map = {}
+        self._no_alias = True
+        try:
+            defs = {}
+            bad = set()
+            for n in self.nodes:
+                if n.k == "DeclStmt":
+                    for d in n.j.get("decls", []):
+                        if d.get("init", -1) >= 0 and not n.j.get("synthetic_of") is None and False:
+                            pass
+                    for d in n.j.get("decls", []):
+                        if n.j.get("synthetic_of") is not None:
+                            continue
+                        if d.get("init", -1) >= 0:
+                            defs.setdefault(d["name"], []).append((self.nodes[d["init"]], n, d))
+                        else:
+                            defs.setdefault(d["name"], [])
+                elif n.k == "BinaryOperator" and n.j.get("op") == "=":
+                    l = n.children[0].strip()
+                    if l.k == "DeclRefExpr" and l.j.get("dk") == "local":
+                        defs.setdefault(l.j["name"], []).append((n.children[1], n, None))
+                elif n.k == "CompoundAssignOperator" or (n.k == "UnaryOperator" and n.j.get("op") in ("++", "--", "&")):
+                    l = n.children[0].strip()
+                    if l.k == "DeclRefExpr" and l.j.get("dk") == "local":
+                        bad.add(l.j["name"])
+            stores = []
+            for n in self.nodes:
+                if n.k == "BinaryOperator" and n.j.get("op") == "=":
+                    stores.append((render(n.children[0]), n))
+                elif n.k == "CompoundAssignOperator" or (n.k == "UnaryOperator" and n.j.get("op") in ("++", "--")):
+                    stores.append((render(n.children[0]), n))
+            for name, ds in defs.items():
+                if name in bad or len(ds) != 1:
+                    continue
+                rhs, stmt, decl = ds[0]
+                r = rhs.strip()
+                ct = rhs.j.get("ct", "") or ""
+                if not ct.endswith("*"):
+                    continue
+                if ct in ("char *", "const char *", "void *", "const void *"):
+                    continue        # string cursors are values, not names for an object
+                pure = True
+                for x in r.walk():
+                    if x.k in ("CallExpr", "CompoundAssignOperator", "StmtExpr", "ConditionalOperator") or \
+                            (x.k == "UnaryOperator" and x.j.get("op") in ("++", "--")) or (x.k == "BinaryOperator" and x.j.get("op") == "="):
+                        pure = False
+                if not pure or r.k not in ("UnaryOperator", "DeclRefExpr", "MemberExpr", "ArraySubscriptExpr"):
+                    continue
+                if r.k == "UnaryOperator" and r.j.get("op") not in ("&", "*"):
+                    continue
+                if r.is_null_const():
+                    continue
+                # nothing mentioned by the right-hand side is stored to after the definition
+                mentioned = set()
+                for x in r.walk():
+                    if x.k in ("DeclRefExpr", "MemberExpr", "ArraySubscriptExpr") and x.is_expr():
+                        mentioned.add(render(x))
+                try:
+                    cfg = self.cfg
+                    db = cfg.block_of(stmt)
+                    after = cfg.reachable(db) if db is not None else set()
+                except Exception:
+                    after = set()
+                    db = None
+                clobbered = False
+                uses = [u for u in self.nodes if u.k == "DeclRefExpr" and u.j.get("name") == name and u.j.get("dk") == "local"]
+                for text, sn in stores:
+                    if text in mentioned and sn is not stmt:
+                        sb = None
+                        try:
+                            sb = self.cfg.block_of(sn)
+                        except Exception:
+                            pass
+                        if sb is None or sb in after:
+                            if sb == db:
+                                pd, ps = self.cfg.index_of(stmt), self.cfg.index_of(sn)
+                                if pd and ps and ps[1] < pd[1] and db not in [x for (bb, ii, x) in self.cfg.edges() if bb in after and x == db]:
+                                    continue
+                            # a store that can only reach a use of the alias by executing the definition again
+                            # (the loop increment of an index the alias was computed from) does not hurt
+                            hurts = True
+                            try:
+                                if sb is not None and db is not None and sb != db:
+                                    reach2 = self.cfg.reachable(sb, avoid_blocks=[db])
+                                    hurts = any(self.cfg.block_of(u) in reach2 for u in uses if self.cfg.block_of(u) is not None)
+                            except Exception:
+                                hurts = True
+                            if hurts:
+                                clobbered = True
+                if clobbered:
+                    continue
+                self._alias_map[name] = rhs
+            # a local that holds a freshly created object and is published through an out-parameter right away
+            #   T *obj = calloc(..); *out = obj;     =>  obj is another name for *out
+            for name, ds in defs.items():
+                if name in self._alias_map or name in bad or len(ds) != 1:
+                    continue
+                pubs = [n for n in self.nodes if n.k == "BinaryOperator" and n.j.get("op") == "=" and n.children[1].strip().k == "DeclRefExpr"
+                        and n.children[1].strip().j.get("name") == name and n.children[1].strip().j.get("dk") == "local"]
+                if len(pubs) != 1:
+                    continue
+                if not (pubs[0].children[1].strip().j.get("ct", "") or "").endswith("*") or pubs[0].children[1].strip().j.get("ct") in ("char *", "const char *"):
+                    continue
+                if pubs[0].children[1].strip() is not pubs[0].children[1] and any(x.k == "CStyleCastExpr" for x in pubs[0].children[1].walk()):
+                    continue
+                l = pubs[0].children[0].strip()
+                if l.k == "UnaryOperator" and l.j.get("op") == "*" and l.children[0].strip().k == "DeclRefExpr" and l.children[0].strip().j.get("dk") == "param":
+                    others = [text for text, sn in stores if text == render(l) and sn is not pubs[0]]
+                    if not others or all(sn.children[1].is_null_const() for text, sn in stores if text == render(l) and sn is not pubs[0] and sn.k == "BinaryOperator"):
+                        self._alias_map[name] = l
+        finally:
+            self._no_alias = False
+        return self._alias_map
 
     def param(self, name):
         for p in self.params:
@@ -296,8 +472,10 @@ class Function:
                     out.append(n)
         return out
 
-    def returns(self):
-        return [n for n in self.walk() if n.k == "ReturnStmt"]
+    def returns(self, inlined=False):
+        """ReturnStmt nodes of this function; `return` statements of virtually inlined helpers are
+        not exits of this function and are only listed on request"""
+        return [n for n in self.walk() if n.k == "ReturnStmt" and (inlined or not n.j.get("inlined_return"))]
 
     def local_decls(self):
         """name -> decl dict for every local variable (params excluded)."""
